@@ -11,6 +11,9 @@ import sys, os, json, time, argparse, random, importlib, collections, traceback
 HERE = os.path.dirname(os.path.abspath(__file__))
 sys.path.insert(0, HERE)
 from uh import common, leanstage, corr   # noqa: E402
+if os.environ.get('UH_FAULT'):           # development aid: `kill -USR1 <pid>` prints every thread's stack (inherited by workers)
+    import faulthandler, signal
+    faulthandler.register(signal.SIGUSR1, all_threads=True)
 
 VERIF = common.VERIF
 
